@@ -42,6 +42,7 @@ NOTES = {
  "C15b": "round 2; first missed; rule C15 R4 (enumerate() directly over the page list) added",
  "C16b": "round 2; first missed; rule C16 R6 (the complete key list reaches collision_font_mapping) added",
  "C17b": "round 2; first missed; rule C17 R5 (every edit of a batch is written: the latest wins) added",
+ "C22b": "round 2; first missed; rule C22 R6 (shared atomic counters are updated by one read-modify-write, never load-then-store) added",
  "C11b": "round 2; first missed; rule C11 R7 (fonts are installed under their resource name unconditionally) added",
 }
 for d in sorted(glob.glob(S + '/C*')):
